@@ -1193,7 +1193,11 @@ class CircuitTemplate(AbstractBaseTemplate):
                     out_map[key] = self._get_var_idx(var_key)
                     out_vars[key] = backend_key
 
-                elif target_nodes:
+                elif not target_nodes:
+
+                    raise PyRatesException(f'The requested output `{out}` (key `{key}`) does not match any variable of the network.')
+
+                else:
 
                     # extract index for multiple output nodes
                     out_map[key] = {}
@@ -1208,6 +1212,8 @@ class CircuitTemplate(AbstractBaseTemplate):
             # resolve the requested nodes on the template first; the vectorization labels only apply to the backend key
             *out_nodes, out_op, out_var = outputs.split('/')
             target_nodes = self.get_nodes(out_nodes, var_identifier=(out_op, out_var))
+            if not target_nodes:
+                raise PyRatesException(f'The requested output `{outputs}` does not match any variable of the network.')
 
             # extract index for single output node
             for t in target_nodes:
@@ -1414,6 +1420,11 @@ class CircuitTemplate(AbstractBaseTemplate):
         # extract target nodes from network
         *node_id, op, var = target.split('/')
         target_nodes = self.get_nodes(node_id, var_identifier=(op, var))
+        if not target_nodes:
+            # same behaviour as `update_var`: an address that matches nothing is reported, not silently dropped
+            warn(PyRatesWarning(f'Extrinsic input `{target}`: variable {var} has not been found on operator {op} of any node '
+                                f'matching {"/".join(node_id)}. The input is ignored.'))
+            return self
 
         # create input node
         node_key, op_key, var_key, in_node = create_input_node(var, inp, adaptive, sim_time, vectorized_net)
